@@ -201,3 +201,17 @@ Proof.
   do 3 eexists. split; [vm_compute; reflexivity|]. split; [vm_compute; reflexivity|].
   vm_compute. discriminate.
 Qed.
+
+(** any mode, remove_empty_shapes on or off, both thresholds <= 1, no class
+    IRI starting with '%' or "@" ([class_iris_ok]) *)
+Theorem C12_run_keys_monotone_valid : forall c thr1 thr2 g ns1 s1 ns2 s2,
+  class_iris_ok c g = true -> wf_frac thr1 -> wf_frac thr2 ->
+  fle BAlg thr1 thr2 = true -> fle BAlg thr2 (fone BAlg) = true ->
+  (N.of_nat (List.length g) < 2 ^ 53)%N ->
+  run_shapes BAlg c thr1 g = inl (ns1, s1) -> run_shapes BAlg c thr2 g = inl (ns2, s2) ->
+  ns1 = ns2 /\
+  Forall2 (fun sh1 sh2 =>
+    sh_name sh1 = sh_name sh2 /\ sh_class sh1 = sh_class sh2 /\ sh_n sh1 = sh_n sh2 /\
+    incl (map (skey (scfg_of c ns1)) (sh_stmts sh2)) (map (skey (scfg_of c ns1)) (sh_stmts sh1))) s1 s2.
+Proof. exact run_keys_monotone_valid. Qed.
+Print Assumptions C12_run_keys_monotone_valid.
